@@ -7,6 +7,10 @@ A case = {"cols": [(thr, [targets], dyn, hint)], "ops": [op, ...]} with op one o
                           3 emits cs2 then panics  (model: Dispatch/Reentry.v, C02 only)
   ("exit",t,d,cs)         thread t exits: its guards are dropped innermost-first, then two thread-local destructors each do
                           `with_default(&d, || emit cs)` — one while tracing-core's thread-local is alive, one after it is destroyed (C02 only)
+  ("exitguard",t,d)       thread t drops its guards LIFO, opens a scope on d whose DefaultGuard lives in a thread-local destroyed AFTER
+                          tracing-core's own thread-local, and exits (C02 only)
+  ("tryinit",t)           tracing-subscriber's SubscriberInitExt::try_init on a fresh collector (the next `col` line): = new; setglobal; drop
+                          of the handle (C02 only, package harness/dispatch_init)
 Encodings are those of coq/theories/Dispatch/Model.v and harness/dispatch/src/bin/h_dispatch.rs:
 dispatcher d: 0 = Dispatch::none(), c+1 = collector c; interest 0/1/2; level / filter rank 0..5 (0 = OFF).
 """
@@ -52,10 +56,10 @@ def static_max_from_table(g, features, release=False):
     """Python mirror of Shape.static_max_of on the table as read (the Coq side pins the harness builds in C01_source_static_max
     and proves C01_static_cap_is_configured for every selection)."""
     def first(rel):
-        for f, rel_only, lvl in g["static"]:
-            if rel_only == rel and f in features:
-                return lvl
-        return None
+        hit = [lvl for f, rel_only, lvl in g["static"] if rel_only == rel and f in features]
+        if not hit:
+            return None
+        return hit[-1] if g.get("static_last") else hit[0]
     r = first(release)
     if r is None and release and g.get("static_ft"):
         r = first(False)
@@ -130,8 +134,28 @@ def expand(ops):
     """Model-side expansion: `panic t [d1..dn]` = n opens, one get_default, n LIFO closes (what unwinding does).
     Returns (expanded ops, index map: for each original op the list of expanded positions)."""
     out, idx = [], []
+    ncreated = 0
     for o in ops:
-        if o[0] == "panic":
+        if o[0] == "new":
+            ncreated += 1
+        if o[0] == "tryinit":
+            # try_init(self) = set_global_default(Dispatch::new(self)): a new collector is registered whatever happens; the user never
+            # holds a handle on it (kept alive by the global default if the call succeeds, dead otherwise)
+            c = ncreated
+            ncreated += 1
+            idx.append([len(out), len(out) + 1, len(out) + 2])
+            out += [("new",), ("setglobal", o[1], c), ("drop", c)]
+        elif o[0] == "exitguard":
+            # LIFO drop of every guard the thread may still hold, set_default(&d); then the thread-local state is destroyed and the
+            # guard (owned by a thread-local that outlives it) is dropped: the scope is uncounted again — for every later op exactly a close
+            t, dd = o[1], o[2]
+            k = sum(1 for q in out if q[0] == "open" and q[1] == t)
+            pos = []
+            for q in [("close", t, 0)] * k + [("open", t, dd), ("close", t, 0)]:
+                pos.append(len(out))
+                out.append(q)
+            idx.append(pos)
+        elif o[0] == "panic":
             t, ds = o[1], o[2]
             pos = []
             for d in ds:
@@ -209,6 +233,9 @@ BUILDS = {
     "info": ("dispatch_info", "h_dispatch_info", ["max_level_info"], False),
     "rel_trace": ("dispatch_rel_trace", "h_dispatch_rel_trace", ["max_level_info", "release_max_level_trace"], True),
     "rel_info": ("dispatch_rel_info", "h_dispatch_rel_info", ["max_level_info"], True),
+    "init": ("dispatch_init", "h_dispatch_init", [], False),
+    "info_debug": ("dispatch_info_debug", "h_dispatch_info_debug", ["max_level_info", "max_level_debug"], False),
+    "rel_info_debug": ("dispatch_rel_info_debug", "h_dispatch_rel_info_debug", ["release_max_level_info", "release_max_level_debug", "max_level_error"], True),
 }
 LEVEL_NAMES = ["off", "error", "warn", "info", "debug", "trace"]
 
@@ -309,7 +336,13 @@ def expected_from_model(pool, case, mrun):
         last = rows[-1]
         e = {"k": k, "max": last[-1], "del": [], "bad": 0}
         head = rows[0]
-        if k == "exit":
+        if k == "tryinit":
+            e["c"] = rows[0][1]
+            e["ok"] = rows[1][1]
+        elif k == "exitguard":
+            if rows[-2][0] == 2:
+                e["bad"] = 1
+        elif k == "exit":
             p = pool[o[3]]
             for r in rows:
                 if r[0] == 4 and r[2] > 0:
